@@ -180,6 +180,12 @@ func RunDriver(p Property, o DriverOpts) int {
 			start := from + k
 			marker := filepath.Join(workDir, fmt.Sprintf("w%d.marker", k))
 			outp := filepath.Join(workDir, fmt.Sprintf("w%d.out", k))
+			wbin, wrace := bin, race
+			if rw, ok := p.(interface{ RaceWorker(k, K int) bool }); ok && race {
+				if !rw.RaceWorker(k, K) {
+					wbin, wrace = o.SelfBin, false
+				}
+			}
 			for start < to {
 				os.Remove(marker)
 				errp := filepath.Join(workDir, fmt.Sprintf("w%d.%d.err", k, ws.crashes))
@@ -187,12 +193,12 @@ func RunDriver(p Property, o DriverOpts) int {
 				args := []string{"-worker", "-prop", id, "-tier", o.Tier, "-seed", strconv.FormatInt(o.Seed, 10),
 					"-from", strconv.Itoa(start), "-to", strconv.Itoa(to), "-stride", strconv.Itoa(stride),
 					"-marker", marker, "-out", outp}
-				cmd := exec.Command(bin, args...)
+				cmd := exec.Command(wbin, args...)
 				cmd.Stdout = errf
 				cmd.Stderr = errf
 				cmd.Env = append(os.Environ(), "GOTRACEBACK=all")
-				if race {
-					cmd.Env = append(cmd.Env, "GORACE=halt_on_error=0 log_path="+filepath.Join(workDir, fmt.Sprintf("race.w%d", k)))
+				if wrace {
+					cmd.Env = append(cmd.Env, "GORACE=halt_on_error=0 exitcode=0 log_path="+filepath.Join(workDir, fmt.Sprintf("race.w%d", k)))
 				}
 				if err := cmd.Start(); err != nil {
 					ws.frameworkE = "cannot start worker: " + err.Error()
@@ -255,8 +261,8 @@ func RunDriver(p Property, o DriverOpts) int {
 				}
 				errf.Close()
 				idx := readMarker(marker)
-				if werr == nil && verdict == "" {
-					return // shard complete
+				if (werr == nil || idx == -2) && verdict == "" {
+					return // shard complete (marker -2 = every case of the shard was run)
 				}
 				eb, _ := os.ReadFile(errp)
 				class, msg := classifyDeath(string(eb))
